@@ -60,7 +60,7 @@ Print Assumptions pathtree_refines_map.
    view_eq_overlay_on_Dp_all_views (below); ReadDir listings: view_listing_eq_overlay_on_Dp(_unpruned);
    content of regular files before pruning: view_content_eq_overlay_on_Dp_unpruned_partial.  Still open
    on Dp: the last view under a path requirer (requirer_only_removes_nonrequired), WalkDir equality, content
-   after pruning; open beyond Dp: symbolic links, implicit parents (D_weak).  Also proved:
+   after pruning; open beyond Dp: link resolution, the last view of images with links, implicit parents (D_weak).  Also proved:
      - view_eq_overlay_on_D_bounded_partial: the statement (lookups on the paths a, b, a/a, a/b, a/a/a,
        a/c, c and listings of the root and of every directory among them) for EVERY image of the two
        small-scope families of Bounded.v (273 x 273 two-layer images with <= 2 members per layer;
@@ -80,8 +80,9 @@ Print Assumptions pathtree_refines_map.
    only removes whiteout nodes (under final_prune_safe), and requirer_only_removes_nonrequired. *)
 
 (* ---- PROVED, all images of the domain Dp (DomainP.v), any number of layers and members ----
-   Dp: members are directories, regular files below the size limit and plain whiteouts (no links, no
-   opaque markers), relative names (any spelling the cleaning accepts); per layer: different paths,
+   Dp: members are directories, regular files below the size limit, plain whiteouts and symbolic links
+   whose target stays inside the root (a link is an entry like a file: not followed here; no opaque
+   markers), relative names (any spelling the cleaning accepts); per layer: different paths,
    every parent directory has its own entry earlier in the layer, nothing below a whiteout target or
    file of the same layer; across layers: a path a layer deletes / turns into a file while older layers
    have something beneath it is not made a directory again by a newer layer; any history.
@@ -125,7 +126,7 @@ Print Assumptions view_eq_overlay_on_Dp.
    (prune_safe_p: the proved counterpart of the known finding empty-dir-after-whiteout-vanishes), nothing
    else changes *)
 Theorem final_prune_only_whiteouts_on_Dp : forall cfg im st,
-  Dp cfg im = true -> prune_safe_p cfg im = true -> cfg_req cfg = None ->
+  Dp cfg im = true -> no_links_p im = true -> prune_safe_p cfg im = true -> cfg_req cfg = None ->
   load cfg im = Some st ->
   forall p, p <> [] -> (0 < List.length (init_slots im))%nat ->
     impl_lookup st (List.length (init_slots im) - 1) p = spec_lookup cfg im (List.length (init_slots im) - 1) p.
@@ -134,7 +135,7 @@ Print Assumptions final_prune_only_whiteouts_on_Dp.
 
 (* hence: FromV1Image with the default requirer, EVERY view, every path *)
 Theorem view_eq_overlay_on_Dp_all_views : forall cfg im st,
-  Dp cfg im = true -> prune_safe_p cfg im = true -> cfg_req cfg = None ->
+  Dp cfg im = true -> no_links_p im = true -> prune_safe_p cfg im = true -> cfg_req cfg = None ->
   load cfg im = Some st ->
   forall i p, (i < List.length (init_slots im))%nat -> p <> [] ->
     impl_lookup st i p = spec_lookup cfg im i p.
@@ -155,7 +156,7 @@ Proof. exact view_listing_eq_overlay_on_Dp_unpruned_lemma. Qed.
 Print Assumptions view_listing_eq_overlay_on_Dp_unpruned.
 
 Theorem view_listing_eq_overlay_on_Dp : forall cfg im st,
-  Dp cfg im = true -> prune_safe_p cfg im = true -> cfg_req cfg = None -> load cfg im = Some st ->
+  Dp cfg im = true -> no_links_p im = true -> prune_safe_p cfg im = true -> cfg_req cfg = None -> load cfg im = Some st ->
   forall i p, (i < List.length (init_slots im))%nat ->
     get_segs p (nth i (st_chains st) empty_trie) <> None ->
     impl_listing st i p = Some (spec_listing cfg im i p).
@@ -178,6 +179,11 @@ Print Assumptions view_content_eq_overlay_on_Dp_unpruned_partial.
 
 Example good_image_in_Dc : Dc w_good_p = true.
 Proof. vm_compute. reflexivity. Qed.
+
+(* links are admitted: the image with the link lib -> usr/lib lies in Dp too; the theorems about the final
+   pruning (last view, listings of the last view) additionally ask for no_links_p *)
+Example good_image_with_link_in_Dp : Dp cfg_default w_good = true /\ no_links_p w_good_p = true /\ no_links_p w_good = false.
+Proof. vm_compute. repeat split; reflexivity. Qed.
 
 Example good_image_prune_safe : prune_safe_p cfg_default w_good_p = true.
 Proof. vm_compute. reflexivity. Qed.
